@@ -405,8 +405,14 @@ void RescaledHmmLikelihood::computeDForward_() const
 
   for (size_t j = 0; j < nbStates_; j++)
   {
-    dTmp[j] = (*dEmissions)[j] * transitionMatrix_->getEquilibriumFrequencies()[j];
-    tmp[j] = (*emissions)[j] * transitionMatrix_->getEquilibriumFrequencies()[j];
+    // as in computeForward_: one transition from the equilibrium frequencies
+    x = 0;
+    for (size_t k = 0; k < nbStates_; k++)
+    {
+      x += trans(k, j) * transitionMatrix_->getEquilibriumFrequencies()[k];
+    }
+    dTmp[j] = (*dEmissions)[j] * x;
+    tmp[j] = (*emissions)[j] * x;
 
     dScales_[0] += dTmp[j];
   }
@@ -455,8 +461,13 @@ void RescaledHmmLikelihood::computeDForward_() const
     {
       for (size_t j = 0; j < nbStates_; j++)
       {
-        dTmp[j] = (*dEmissions)[j] * transitionMatrix_->getEquilibriumFrequencies()[j];
-        tmp[j] = (*emissions)[j] * transitionMatrix_->getEquilibriumFrequencies()[j];
+        x = 0;
+        for (size_t k = 0; k < nbStates_; k++)
+        {
+          x += trans(k, j) * transitionMatrix_->getEquilibriumFrequencies()[k];
+        }
+        dTmp[j] = (*dEmissions)[j] * x;
+        tmp[j] = (*emissions)[j] * x;
 
         dScales_[i] += dTmp[j];
       }
@@ -525,9 +536,15 @@ void RescaledHmmLikelihood::computeD2Forward_() const
 
   for (size_t j = 0; j < nbStates_; j++)
   {
-    tmp[j] = (*emissions)[j] * transitionMatrix_->getEquilibriumFrequencies()[j];
-    dTmp[j] = (*dEmissions)[j] * transitionMatrix_->getEquilibriumFrequencies()[j];
-    d2Tmp[j] = (*d2Emissions)[j] * transitionMatrix_->getEquilibriumFrequencies()[j];
+    // as in computeForward_: one transition from the equilibrium frequencies
+    x = 0;
+    for (size_t k = 0; k < nbStates_; k++)
+    {
+      x += trans(k, j) * transitionMatrix_->getEquilibriumFrequencies()[k];
+    }
+    tmp[j] = (*emissions)[j] * x;
+    dTmp[j] = (*dEmissions)[j] * x;
+    d2Tmp[j] = (*d2Emissions)[j] * x;
 
     d2Scales_[0] += d2Tmp[j];
   }
@@ -579,9 +596,14 @@ void RescaledHmmLikelihood::computeD2Forward_() const
     {
       for (size_t j = 0; j < nbStates_; j++)
       {
-        tmp[j] = (*emissions)[j] * transitionMatrix_->getEquilibriumFrequencies()[j];
-        dTmp[j] = (*dEmissions)[j] * transitionMatrix_->getEquilibriumFrequencies()[j];
-        d2Tmp[j] = (*d2Emissions)[j] * transitionMatrix_->getEquilibriumFrequencies()[j];
+        x = 0;
+        for (size_t k = 0; k < nbStates_; k++)
+        {
+          x += trans(k, j) * transitionMatrix_->getEquilibriumFrequencies()[k];
+        }
+        tmp[j] = (*emissions)[j] * x;
+        dTmp[j] = (*dEmissions)[j] * x;
+        d2Tmp[j] = (*d2Emissions)[j] * x;
 
         d2Scales_[i] += d2Tmp[j];
       }
